@@ -236,6 +236,16 @@ def b_list(eng, st, args, kwargs, node):
     return [(st, Opaque("list()"))]
 
 
+def b_dict(eng, st, args, kwargs, node):
+    s1 = st.clone()
+    if not args and not kwargs:
+        return [(s1, s1.alloc(eng.new_empty_dict(s1, node)))]
+    if len(args) == 1 and not kwargs and isinstance(args[0], Ref) and isinstance(st.get(args[0]), DictObj):
+        o = st.get(args[0])
+        return [(s1, s1.alloc(DictObj(o.ksort, o.vsort, o.m, o.d, "copy")))]  # dict(d): a fresh dict with the same contents
+    return [(st, Opaque("dict()", attrs={k: v for k, v in kwargs.items()}))]
+
+
 def b_print(eng, st, args, kwargs, node):
     return [(st, NONE)]
 
@@ -296,4 +306,4 @@ BUILTINS = {
 }
 
 # classes that are also callable converters
-CONVERTERS = {"str": b_str, "bool": b_bool, "int": b_int, "tuple": b_tuple, "list": b_list}
+CONVERTERS = {"str": b_str, "bool": b_bool, "int": b_int, "tuple": b_tuple, "list": b_list, "dict": b_dict}
